@@ -280,6 +280,34 @@ abbrev FOp := Op × Bool
 
 def runF (v : Variant) (s : St) (fops : List FOp) : St := run v s (fops.map Prod.fst)
 
+/-! ## Histories driven through the adapter's read loop (adapter.go handleConnection)
+
+Every accepted connection has a read loop (`connectionReadLoop`); when its transport is closed by
+the server (eviction, CloseConnection by somebody else) or broken by the peer, `ReadPacket` fails,
+the loop ends and the deferred `cleanupConnection` runs `CloseConnection(connID)` and closes the
+transport.  A loop that is inside `HandlePacket` (handshake in flight) gets there only afterwards.
+`settle` is that teardown for every such connection at once (the teardowns of different connections
+commute); `stepAdp` = one operation, then the read loops that must end do end. -/
+
+/-- the read loop of `c` ends: it was opened, its transport is closed or broken, no packet is being handled -/
+def dead (s : St) (c : Nat) : Bool :=
+  decide (c < s.n) && (s.closed c || s.broken c) && s.opened c && (s.pend c).isNone
+
+def settle (s : St) : St :=
+  { s with idx := fun k => match s.idx k with
+                          | none => none
+                          | some e => if dead s (s.obj e).connID = true then none else some e,
+           connMap := fun c => if dead s c = true then none else s.connMap c,
+           sconn := fun c => if dead s c = true then false else s.sconn c,
+           tconn := fun c => if dead s c = true then false else s.tconn c,
+           closed := fun c => s.closed c || (decide (c < s.n) && s.broken c && s.opened c && (s.pend c).isNone),
+           gone := fun c => if dead s c = true then true else s.gone c,
+           evicted := fun c => if dead s c = true ∧ (s.connMap c).isSome = true then true else s.evicted c }
+
+def stepAdp (v : Variant) (s : St) (op : Op) : St := settle (step v s op)
+
+def runAdp (v : Variant) (s : St) (fops : List FOp) : St := (fops.map Prod.fst).foldl (stepAdp v) s
+
 /-! ## Finer steps (only for the recorded finding `evict-close-window`)
 
 `KickOldConnection` releases the registry lock between removing the old connection from the
@@ -321,6 +349,9 @@ structure ConnRes where
   closed : Bool               -- closed-flag of the fake transport
 deriving DecidableEq, Repr
 
+def ifcOf (r : Option CliRes) : Option Nat := r.map (fun x => x.conn)
+def gidOf (r : ConnRes) : Nat := match r.reg with | some (x, _) => x | none => 0
+
 structure Obs where
   cl : List (Option CliRes)   -- clients 1..m
   cn : List ConnRes           -- connections 0..n-1
@@ -330,6 +361,12 @@ structure Obs where
   control : Nat
   tunnel : Nat
   active : Nat                -- GetActiveChannels()
+  -- the other spellings of the same questions (defaults = what the primary answers say)
+  altList : Nat := count      -- len(clientRegistry.List())  (shim)
+  altConns : Nat := total     -- len(ListConnections())
+  altActive : Nat := active   -- GetActiveConnections()
+  ifc : List (Option Nat) := cl.map ifcOf   -- GetControlConnectionInterface(x): its ConnID
+  gid : List Nat := cn.map gidOf            -- GetClientIDByConnectionID(c)
 deriving DecidableEq, Repr
 
 def cliRes (s : St) (x : Nat) : Option CliRes :=
